@@ -36,6 +36,7 @@ type controller struct {
 	curProc string // process whose step is being executed (owner of goroutines the library spawns)
 	arrived []string
 	emit    func(J) // event sink of the running scenario
+	lin     sync.Mutex // makes "delegate call + its event" one atomic unit, so that events are logged in linearisation order
 }
 
 func (c *controller) event(e J) {
@@ -203,9 +204,11 @@ func (g *GatedLimiter) Acquire(ctx context.Context) (core.Listener, bool) {
 	who := procOf(ctx)
 	g.c.event(J{"k": "want", "by": g.c.whoami(), "for": who})
 	g.c.gate("acq.enter", J{"for": who})
+	g.c.lin.Lock()
 	l, ok := g.inner.Acquire(ctx)
 	granted := ok && l != nil
 	g.c.event(J{"k": "att", "by": g.c.whoami(), "for": who, "ok": granted, "nil": l == nil})
+	g.c.lin.Unlock()
 	g.c.gate("acq.exit", J{"for": who, "ok": granted})
 	if !granted {
 		return l, ok
@@ -225,9 +228,11 @@ type GatedListener struct {
 }
 
 func (g *GatedListener) complete(f func(), o string) {
+	g.c.lin.Lock()
 	g.done++
 	f()
 	g.c.event(J{"k": "rel", "by": g.c.whoami(), "for": g.For, "o": o, "n": g.done})
+	g.c.lin.Unlock()
 	g.c.gate("rel.exit", J{"for": g.For, "outcome": o, "completions": g.done})
 }
 func (g *GatedListener) OnSuccess() { g.complete(g.inner.OnSuccess, "success") }
